@@ -29,6 +29,8 @@ def run(ctx):
     vlib.mc_check(ctx, "GcProto", "GcProto_neg_reader.cfg", expect_violation="GcNeverDeletesNeeded", timeout=300, workers=4)
     vlib.mc_check(ctx, "GcProto", "GcProto_neg_gc.cfg", expect_violation="GcNeverDeletesNeeded", timeout=300, workers=4)
     vlib.mc_check(ctx, "GcProto", "GcProto_neg_track.cfg", expect_violation="GcNeverDeletesNeeded", timeout=300, workers=4)
+    vlib.mc_check(ctx, "ManagedProto", "ManagedProto.cfg", timeout=120, workers=2)
+    vlib.mc_check(ctx, "ManagedProto", "ManagedProto_negF50.cfg", expect_violation="NoUnmanagedFile", timeout=120, workers=2)
     vlib.mc_check(ctx, "MC_Storage", "MC_Storage.cfg", timeout=120, workers=2)
     vlib.mc_check(ctx, "MC_Storage", "MC_Storage_negF4.cfg", expect_violation="CrashNoOrphan", timeout=120, workers=2)
     # interleaved builder / updater / GC: GcTight, NeverDeletesNeeded, NeverDeletesBuilding, OrphanIsF4Class
@@ -43,6 +45,9 @@ def run(ctx):
     ev = sc.record_histories(ctx, "fixed", sc.fixed_histories())
     ev += sc.record_random(ctx, "rand", 50 if ctx.quick else 500, 30, ctx.seed + 11)
     ev += sc.record_random(ctx, "rand_da", 10 if ctx.quick else 100, 30, ctx.seed + 12, extra=["--delete-all"])
+    # writers alternating between TWO Index instances on the directory (the second one opened before anything was written):
+    # each instance has its own in-memory copy of the managed list (ManagedProto; finding F50, repaired)
+    ev += sc.record_random(ctx, "rand_two", 12 if ctx.quick else 120, 30, ctx.seed + 13, extra=["--two"])
     runs = sc.storage_runs(ev)
     ndel = sum(1 for r in runs for e in r if e["e"] == "delete")
     n = tracecheck.validate_runs(ctx, runs, "storage", "StorageTrace", "StorageTrace.cfg", owns=sc.owns_c10, key=sc.storage_key,
